@@ -135,6 +135,31 @@ def posteriorColumns (vars : List (PostVar α)) (i : Nat) : Option (List (List (
 def posteriorRow (cols : List (List (Option α))) (idx : Nat) : List (Option α) :=
   cols.map (fun col => col.getD idx none)
 
+/-! ## the posterior predictive model as an object that is called repeatedly -/
+
+/-- what a `PosteriorPredictiveModel` object holds between calls: the posterior it was built with; `cache` is
+    only used by the hypothetical variant `selectCached` (the code as it is keeps nothing between calls) -/
+structure PostObj (α : Type) where
+  vars : List (PostVar α)
+  cache : Option (Option (List (List (Option α)))) := none
+
+/-- `sample(individual=i)` up to the parameter matrix, on the object: the code as it is recomputes the matrix
+    from the dataset and leaves the object unchanged -/
+def PostObj.select (o : PostObj α) (i : Nat) : Option (List (List (Option α))) × PostObj α :=
+  (posteriorColumns o.vars i, o)
+
+/-- a variant that keeps the first matrix it computed (a "flatten once" cache not keyed on the individual) -/
+def PostObj.selectCached (o : PostObj α) (i : Nat) : Option (List (List (Option α))) × PostObj α :=
+  match o.cache with
+  | some m => (m, o)
+  | none => (posteriorColumns o.vars i, { o with cache := some (posteriorColumns o.vars i) })
+
+/-- the matrices returned by a sequence of calls for the individuals `is` on one object -/
+def PostObj.run (step : PostObj α → Nat → Option (List (List (Option α))) × PostObj α) :
+    PostObj α → List Nat → List (Option (List (List (Option α))))
+  | _, [] => []
+  | o, i :: is => (step o i).1 :: PostObj.run step (step o i).2 is
+
 /-! ## `PAMPredictiveModel.sample`: allocation and IDs -/
 
 /-- `samples_per_model[m] = sum(model_draws == m)` -/
